@@ -57,5 +57,18 @@ for n, pid, l in res:
     elif rc == '1': v = 'VIOLATION with a concrete failing input' + (' (`%s`)' % kind.group(1) if kind else '')
     else: v = l[-120:].replace('|', '/')
     rows.append('| %s | %s | %s | %s |' % (n, pid, rc, v))
-open(os.path.join(ROOT, 'seeded/CROSS.md'), 'w').write('\n'.join(rows) + '\n')
+# rows of changes not re-run this time are kept
+path = os.path.join(ROOT, 'seeded/CROSS.md')
+if len(sys.argv) > 1 and os.path.exists(path):
+    done = set((n, pid) for n, pid, _ in res)
+    for l in open(path).read().splitlines()[2:]:
+        c = [x.strip() for x in l.split('|')]
+        if len(c) > 3 and (c[1], c[2]) not in done:
+            rows.append(l)
+    def key(l):
+        c = [x.strip() for x in l.split('|')]
+        m = re.match(r'(C\d+)-(\d+)$', c[1])
+        return (m.group(1), int(m.group(2)), c[2]) if m else ('', 0, '')
+    rows = rows[:2] + sorted(rows[2:], key=key)
+open(path, 'w').write('\n'.join(rows) + '\n')
 print(len(jobs), 'jobs')
